@@ -13,24 +13,39 @@ from .tlc import SPEC_DIR, tla_value
 KEYTYPES = ["basic-key", "identifier", "ipaddr-or-hostname", "~lower~"]
 
 
+import re as _re
+_key_rx = _re.compile(r"([^\s()]+)\s*(.*)\Z", _re.S)
+
+
+def split_kv(line):
+    """(key, value) of a key line as the grammar splits it, or None."""
+    s = line.strip()
+    if not s or s[0] in "<%#":
+        return None
+    m = _key_rx.match(s)
+    return (m.group(1), m.group(2)) if m else None
+
+
 def key_tokens(lines):
     toks = set()
     for l in lines:
-        s = l.strip()
-        if not s or s[0] in "<%#":
-            continue
-        toks.add(s.split()[0])
+        kv = split_kv(l)
+        if kv:
+            toks.add(kv[0])
     return toks
 
 
 def value_texts(lines):
     out = {""}
     for l in lines:
+        kv = split_kv(l)
+        if kv:
+            out.add(kv[1])
         s = l.strip()
-        if not s or s[0] in "<%#":
-            continue
-        parts = s.split(None, 1)
-        out.add(parts[1] if len(parts) > 1 else "")
+        if s.startswith("%define"):
+            parts = s[len("%define"):].split(None, 1)
+            if len(parts) == 2:
+                out.add(parts[1])
     return out
 
 
